@@ -246,6 +246,8 @@ def gen_problem(rng, theory_kind, prior_mode, size=None, offset=None):
             start[ax] += o
             spec[ax]["lo"] += o
             spec[ax]["hi"] += o
+            if o < 0 and spec[ax]["kind"] == "Uhalf":
+                spec[ax]["kind"] = "Ufree"         # a half-infinite prior [0, inf) cannot hold a negative coordinate
     return dict(n=n, spacing=sp, truth=truth, start=start, noise_sd=noise_sd,
                 theory_kind=theory_kind, prior_mode=prior_mode, spec=spec, offset=list(offset) if offset else None)
 
